@@ -378,12 +378,13 @@ PPL::MIP_Problem::solve() const{
         x.status = UNBOUNDED;
         // A feasible point has been set in `solve_mip()', so that
         // a call to `feasible_point' will be successful.
-        x.last_generator = g;
+        // Note: swapping cannot throw (the status is already updated).
+        swap(x.last_generator, g);
         break;
       case OPTIMIZED_MIP_PROBLEM:
         x.status = OPTIMIZED;
         // Set the internal generator.
-        x.last_generator = g;
+        swap(x.last_generator, g);
         break;
       }
       PPL_ASSERT(OK());
